@@ -366,6 +366,32 @@ def main(pid="C09"):
                     continue
                 rep.violation({"layer": "component", "entry": "uninterpretable"},
                               "%s list entry %r cannot be interpreted but construction succeeded" % (which, entry), None)
+        # addresses that embed another address (IPv4-mapped, 6to4): the peer is the address the socket reports, an IPv6 one;
+        # expected decisions by integer arithmetic per family, through the assembled server (the protocol hands the address on)
+        import ipaddress as _ip
+
+        def ref(allow, deny, default, peer):
+            a = _ip.ip_address(peer)
+            inn = lambda lst: any(a.version == _ip.ip_network(e, strict=False).version and a in _ip.ip_network(e, strict=False) for e in (lst or []))  # noqa: E731
+            if inn(deny):
+                return "refuse53"
+            if allow:
+                return "admit" if inn(allow) else "refuse53"
+            return "admit" if default else "refuse53"
+        emb = [(None, ["::ffff:0:0/96"], True), (None, ["::ffff:10.0.0.0/104"], True), (["10.0.0.0/8"], None, True), (["::ffff:0:0/96"], None, True),
+               (None, ["10.0.0.0/8"], True), (["192.0.2.0/24"], None, True), (None, ["192.0.2.0/24", "2002::/16"], True), (["2002:c000:204::/48"], None, False)]
+        for allow, deny, default in emb:
+            asm = Assembled(load_config(True, allow, deny, default, root, None))
+            try:
+                for peer in ["::ffff:10.1.2.3", "10.1.2.3", "::ffff:192.0.2.4", "192.0.2.4", "2002:c000:204::1", "2002:a01:203::1", "::ffff:11.0.0.1", "64:ff9b::c000:204"]:
+                    rep.add("evaluations")
+                    got, want = asm.decide(peer), ref(allow, deny, default, peer)
+                    if got != want:
+                        rep.violation({"layer": "start_server", "embedded": True},
+                                      "server assembled from allow=%s deny=%s default_allow=%s, peer %s (an address embedding another): %s, property says %s" % (
+                                          allow, deny, default, peer, got, want), None)
+            finally:
+                asm.close()
         # ... and through the configuration layer: TOML -> ServerConfig -> get_access_control_config -> the running server
         for entry in ["", " ", "\t", "not-an-ip", "10.0.0.0/33", "::1/129", "10.0.0.0/8 ", " 10.0.0.1"]:
             for which in ("allow", "deny"):
